@@ -38,6 +38,9 @@ import HexVerif.Properties.C01
     the stack pointer word holding its initial value.  (Along the run every activation has
     `lo <= sp` and `sp + size <= sp0`; this is the invariant of the induction `all_correct` and is
     not exported per step.)
+  * `C08_v3_partial` - the same for the class `v3Ok`; `C08_access_log` - the per-access clause
+    ("every fetch, load and store addresses a word below 200000") holds along every ISA run that
+    exits, with the log (`Isa.runAccesses`) proved faithful to the guards of `Isa.step`.
   Not discharged: that the `stackOffset` of every symbol in scope is one `LocalDeclLocations` /
   `FormalLocations` assigned (needs symbol-table lemmas; for the classes V1/V2 it is part of the
   reflective checks `v1Check`/`v2Check`), and the dynamic clauses on the ISA access log.
@@ -103,7 +106,9 @@ theorem C08_store_discipline (env : IAm.Env) (c c' : IAm.Cfg) (io io' : Isa.IOSt
 
 /-- **`C08_v2_partial`.**  Restriction: `C01s.v2Ok P` (decidable).  If the reference semantics
     defines the behaviour `β` and the compiler produces `img`, then the ISA run on `img` exits with
-    `β.exit` and `β.events`; every word of its final memory that differs from the boot memory lies
+    `β.exit` and `β.events`; EVERY fetch, load and store of that run addresses a word below 200000
+    (`Isa.runAccesses`: the addresses as the hardware forms them, not the guarded ones); every word
+    of its final memory that differs from the boot memory lies
     inside the memory and holds no instruction byte of the final program; and if `main` returned,
     the run (seen on the lowered directive list, before the peephole pass) passes the `_exit` label
     of the start-up stub with `mem[1]` = the initial stack pointer `spValue globalsOffset`. -/
@@ -112,13 +117,38 @@ theorem C08_v2_partial (P : X.Program) (inp : X.Input) (n : Nat) (β : X.Behavio
     (hrun : X.run P inp n = .defined β) :
     ∃ m code j s' io, Isa.run m (Am.boot img) (Isa.IOSt.init inp.stdin inp.files) = .exited code j s' io ∧
       code = β.exit ∧ io.log.reverse = β.events ∧
+      Isa.AllIn (Isa.runAccesses m (Am.boot img) (Isa.IOSt.init inp.stdin inp.files)) ∧
       (∀ w, s'.mem.read w ≠ (Am.boot img).mem.read w → w < memWords ∧ (IAm.envOf st.optimised img).isCode w = false) ∧
       (β.returned = true → ∃ a' b' mem',
         IAm.Steps (C01s.v1Env st img) (C01s.cfg 0 0 0 (Am.boot img).mem) (Isa.IOSt.init inp.stdin inp.files)
           (C01s.cfg (2 + st.cg.data.length + 3) a' b' mem') io ∧
         mem'.read 1 = BitVec.ofNat 32 (spValue st.cg.globalsOffset).toNat) := by
   have _ := hst
-  exact C01s.v2_c08 P st img inp n β hasm hr hrun
+  exact C01s.v_c08 false P st img inp n β hasm hr hrun
+
+/-- **`C08_v3_partial`.**  The same for the class `C01s.v3Ok` of `C01_v3_partial` (calls of pure
+    functions anywhere in operands and actuals, one call of any callee next to constants). -/
+theorem C08_v3_partial (P : X.Program) (inp : X.Input) (n : Nat) (β : X.Behaviour) (st : Stages) (img : Asm.Image)
+    (hr : C01s.v3Check P st img = true) (hst : stages P = .ok st) (hasm : assembleDirs st.optimised = .ok img)
+    (hrun : X.run P inp n = .defined β) :
+    ∃ m code j s' io, Isa.run m (Am.boot img) (Isa.IOSt.init inp.stdin inp.files) = .exited code j s' io ∧
+      code = β.exit ∧ io.log.reverse = β.events ∧
+      Isa.AllIn (Isa.runAccesses m (Am.boot img) (Isa.IOSt.init inp.stdin inp.files)) ∧
+      (∀ w, s'.mem.read w ≠ (Am.boot img).mem.read w → w < memWords ∧ (IAm.envOf st.optimised img).isCode w = false) ∧
+      (β.returned = true → ∃ a' b' mem',
+        IAm.Steps (C01s.v1Env st img) (C01s.cfg 0 0 0 (Am.boot img).mem) (Isa.IOSt.init inp.stdin inp.files)
+          (C01s.cfg (2 + st.cg.data.length + 3) a' b' mem') io ∧
+        mem'.read 1 = BitVec.ofNat 32 (spValue st.cg.globalsOffset).toNat) := by
+  have _ := hst
+  exact C01s.v_c08 true P st img inp n β hasm hr hrun
+
+/-- **`C08_access_log`.**  The access log is faithful to the guards of the ISA: a step is
+    `undef outOfRange` exactly when its log holds a word address `>= 200000`; hence a run that
+    exits has only in-range entries - for ANY image, not only compiled ones. -/
+theorem C08_access_log (s : Isa.St) (io : Isa.IOSt) :
+    (Isa.step s io = .undef .outOfRange ↔ ¬ Isa.AllIn (Isa.stepAccesses s)) ∧
+    (∀ fuel k code j s' io', Isa.run fuel s io k = .exited code j s' io' → Isa.AllIn (Isa.runAccesses fuel s io)) :=
+  ⟨Isa.step_outOfRange_iff s io, fun fuel k code j s' io' h => Isa.run_exited_inrange fuel s io k code j s' io' h⟩
 
 /-! Non-vacuity of `C08_v2_partial`: the program `C01.demoV2` (recursive function, a procedure with
     two parameters, a global) satisfies its hypotheses; its `main` exits through `0(r)`, and
@@ -134,6 +164,26 @@ example : ∃ st img, stages C01.demoV2 = .ok st ∧ assembleDirs st.optimised =
       exact ⟨st, img, hst, himg, h⟩
     · simp at h
   · simp at h
+
+/-! Non-vacuity of `C08_v3_partial`: `C01.demoV3` (calls of a recursive function as operands). -/
+example : ∃ st img, stages C01.demoV3 = .ok st ∧ assembleDirs st.optimised = .ok img ∧
+    C01s.v3Check C01.demoV3 st img = true := by
+  have h : C01s.v3Ok C01.demoV3 = true := by decide +kernel
+  unfold C01s.v3Ok at h
+  split at h
+  · rename_i st hst
+    split at h
+    · rename_i img himg
+      exact ⟨st, img, hst, himg, h⟩
+    · simp at h
+  · simp at h
+
+/-! The access log on concrete states: `LDAM 5` at pc 0 fetches word 0 and loads word 5; an `LDAI`
+    whose effective address wraps to 0xFFFFFFFF is logged with that address (and is out of range). -/
+example : Isa.stepAccesses { pc := 0, a := 0, b := 0, o := 0, mem := Mem.zero.write 0 0x05 } =
+    [⟨.fetch, 0⟩, ⟨.load, 5⟩] := by decide +kernel
+example : Isa.stepAccesses { pc := 1, a := 0xFFFFFFFE, b := 0, o := 0, mem := Mem.zero.write 0 0x6100 } =
+    [⟨.fetch, 0⟩, ⟨.load, 0xFFFFFFFF⟩] := by decide +kernel
 
 /-! Non-vacuity: a statement with a live temporary (`x := (a + b) + (c + d)`, all locals) is
     generated from a state with `offset = size = 4`; the premises hold and the frame grows to 5. -/
